@@ -232,7 +232,7 @@ def make_judges(ctx, conv_max_word=24):
 def floors(tier):
     return [(op, k) for op in REL for k in ('Fxp', 'number', 'array')] + [('ufunc', n) for n in ('less', 'less_equal', 'equal', 'not_equal', 'greater', 'greater_equal')] + \
            [('ufunc-left', k) for k in ('float64', 'array', 'Fxp')] + [('conv1', '__float__'), ('conv1', '__int__'), ('cmp-config',)] + \
-           [('conv', w) for w in ('get_val', 'astype(float)', 'astype(int)', '__float__', '__int__', '__bool__', 'raw', 'uraw')] + [('element-read', 'item'), ('element-read', 'index'), ('read-then-read',), ('cmp-integer-beyond-doubles',)]
+           [('conv', w) for w in ('get_val', 'astype(float)', 'astype(int)', '__float__', '__int__', '__bool__', 'raw', 'uraw')] + [('element-read', 'item'), ('element-read', 'index'), ('read-then-read',), ('cmp-integer-beyond-doubles',), ('element-read-2d',)]
 
 
 def cases(tier, seed):
@@ -288,6 +288,14 @@ def run_case(case, ctx):
                     _try(lambda: x.astype(float))
                     _try(lambda: x.astype(int))
                     _try(lambda: x.get_val(int))
+                    # element-wise reads of a two-dimensional object: a row by index, an element by flat position and by tuple
+                    _try(lambda: x.get_val(index=1))
+                    _try(lambda: x.get_val(index=(1, 0)))
+                    _try(lambda: x.get_val(item=1))
+                    _try(lambda: x.get_val(item=(0, 1)))
+                    _try(lambda: x.astype(float, index=0))
+                    _try(lambda: x.astype(int, item=2))
+                    ctx.floor_hit(('element-read-2d',))
                     _try(lambda: x.raw())
                     _try(lambda: x.uraw())
         # objects that were created from integers and got their fraction bits / values later, through raw routes
